@@ -7,7 +7,7 @@
      src/client/pool/key.rs      TokenMap::insert, UriKey (scheme, authority)
      src/client/pool/service.rs  ConnectionPoolService::{call, connect_to}, ResponseFuture::poll
      src/client/conn/connector.rs Connector::poll_connector (staging; `shareable` is constantly false)
-   after the repairs D3 (9e0bb9e), D5 (1bf31d6), D7 (9bebd46), D4 (ab48742).  D6 is still in the code
+   after the repairs D3 (9e0bb9e), D5 (1bf31d6), D7 (9bebd46), D4 (ab48742), D15 (f10f40c), D16.  D6 is still in the code
    and therefore in the model.
    One [op] is one atomic step of a single-threaded schedule: the pool mutex makes
    checkout/push/pop/cancel atomic, and one poll of a request future is atomic on a current-thread
@@ -294,7 +294,9 @@ Definition key_insert (k : key) s : nat * state :=
 (* register_connected *)
 Definition register (cfg : config) (t c : nat) s : pooled * state :=
   if g_pool cfg && negb (Nat.eqb t 0) then
-    if share_of s c then ((c, 0), pool_push (g_max_idle cfg) t c (clone_conn c s))
+    if share_of s c then
+      (* D15 repaired: a handle that was closed while it sat in the checkout is not offered / kept *)
+      ((c, 0), if is_open s c then pool_push (g_max_idle cfg) t c (clone_conn c s) else s)
     else ((c, t), s)
   else ((c, t), s).
 
@@ -392,13 +394,16 @@ Definition checkout_drop (cfg : config) (rid : nat) (ck : checkout) s : state :=
            | Some c => if is_open s c && has_pool then pool_push (g_max_idle cfg) t c s else drop_conn c s
            | None => s
            end in
-  let s := match k_inner ck with
-           | IDelayDrop => spawn (TDelayed rid t (k_owner ck)) s
-           | _ => if has_pool && k_owner ck then pool_cancel t s else s
-           end in
+  (* as_delayed: only an attempt that is in progress continues in the background (D16 repaired); a
+     connector that never started is dropped like one created without continue_after_preemption *)
+  let started := match get_dial s rid with Some d => match d_stage d with DNew => false | _ => true end | None => false end in
+  let delayed := match k_inner ck with IDelayDrop => started | _ => false end in
+  let s := if delayed then spawn (TDelayed rid t (k_owner ck)) s
+           else if has_pool && k_owner ck then pool_cancel t s else s in
   let '(_, s) := rx_drop ck s in
   match k_inner ck with
   | IConnecting | IDelayed => upd_dial rid (d_set_stage DGone) s
+  | IDelayDrop => if delayed then s else upd_dial rid (d_set_stage DGone) s
   | _ => s
   end.
 
